@@ -423,6 +423,9 @@ pub fn labels(c: &Case, r: &RunOut) -> Vec<&'static str> {
     if c.root.depth() > 1 {
         l.push("nested");
     }
+    if c.root.depth() > 2 {
+        l.push("nested_two_levels");
+    }
     if c.schedule.iter().any(|a| matches!(a, Action::Fire { thread: true, .. })) {
         l.push("wake_from_thread");
     }
